@@ -20,6 +20,11 @@ CHECKS["C15"] = c15.check
 CHECKS["C09"] = c10.check_c09
 
 
+for _p in ("C08", "C11"):
+    CHECKS[_p] = c10.with_client(eprops.check)
+CHECKS["C18"] = c10.with_client(c18.check)
+
+
 def replay(ctx, path):
     """Re-record the configuration of a replay file from the CURRENT tree and validate it alone."""
     d = json.load(open(path))
